@@ -19,8 +19,8 @@ from ..snap import build_model, fhex, fingerprint, forest_snapshot, safe_call, s
 
 ID = "C07"
 RULE = ("Metric histories: a pool of 2..5 shared vectors (zero-containing for shifted metrics), 2..40 evaluations on the same "
-        "array objects in random order (also the same object as both arguments); each value must equal bit-for-bit the value on "
-        "fresh copies of the original values and every pool array must be byte-identical after every call. Model histories: "
+        "array objects in random order (also the same object as both arguments), interleaved with evaluations on vectors of other lengths; "
+        "each value must equal bit-for-bit the value on fresh copies of the original values AND the first value seen for that pair in the history, and every pool array must be byte-identical after every call. Model histories: "
         "fit/predict/get_distances/save/pre_compute_distance/evaluations on shared X,Y,V,Q arrays for the four models; arrays "
         "byte-identical after every call; every fit's forest snapshot and every predict's output equal those of a fresh model on "
         "fresh copies. 1 in 4 cases runs write-protected (flags.writeable=False). Non-trivial: history length>=2 on arrays holding "
@@ -35,7 +35,7 @@ BUDGET = {
     "thorough": {"cases": 100000, "seconds": 480, "shards": 16},
 }
 REQUIRED_OBS = ["metric_eval_compared", "model_fit_compared", "model_predict_compared", "protected_cases",
-                "fingerprints_compared", "history_on_exact_zero"]
+                "fingerprints_compared", "history_on_exact_zero", "other_length_evaluations"]
 MIN_NONTRIVIAL = 300
 MODEL_METRICS = [n for n in NAMES if n != "statistic"]
 
@@ -60,7 +60,11 @@ def generate(rng, tier, idx):
             pool[0][int(rng.integers(0, n))] = 0.0
         nops = int(rng.integers(2, 41))
         ops = [[int(rng.integers(0, k)), int(rng.integers(0, k))] for _ in range(nops)]
-        return {"kind": "metric", "metric": name, "pool": [p.tolist() for p in pool], "ops": ops, "protect": protect}
+        # interleaved evaluations on vectors of OTHER lengths (longer and shorter): state kept between calls would leak here
+        noise = [dom_vec(rng, kind, m).tolist() for m in (n + int(rng.integers(1, 9)), max(1, n - 1), n + 17)]
+        for _ in range(int(rng.integers(1, 6))):
+            ops.insert(int(rng.integers(0, len(ops))), [-1, int(rng.integers(0, len(noise)))])
+        return {"kind": "metric", "metric": name, "pool": [p.tolist() for p in pool], "ops": ops, "protect": protect, "noise": noise}
     model = ["supervised", "semi", "knn", "unsup"][(idx // 3) % 4]
     name = MODEL_METRICS[int(rng.integers(0, len(MODEL_METRICS)))] if rng.random() < 0.7 else "log_squared_euclidean"
     kind, dec = T[name][1], T[name][3]
@@ -79,7 +83,7 @@ def generate(rng, tier, idx):
     V = data(int(rng.integers(2, 7)))
     YV = rng.integers(0, int(Y.max()) + 1, size=len(V))
     Q = data(int(rng.integers(1, 7)))
-    choices = ["fit", "predict", "dist", "save", "pre", "eval", "predict", "fit"]
+    choices = ["fit", "predict", "dist", "save", "pre", "eval", "predict", "fit", "noise"]
     ops = ["fit"] + [choices[int(rng.integers(0, len(choices)))] for _ in range(int(rng.integers(1, 9)))]
     max_k = int(rng.integers(1, min(4, n - 1) + 1))
     return {"kind": "model", "model": model, "metric": name, "X": X.tolist(), "Y": Y.tolist(), "V": V.tolist(),
@@ -118,7 +122,15 @@ def _check_metric(case, res):
             a.flags.writeable = False
         res.see("protected_cases")
     has_zero = any(0.0 in v for v in pool0)
+    first_value = {}
+    noise = case.get("noise") or []
     for k, (i, j) in enumerate(case["ops"]):
+        if i < 0:
+            if noise:
+                v = np.array(noise[j % len(noise)], dtype=float)
+                safe_call(fn, v, v[::-1].copy())
+                res.see("other_length_evaluations")
+            continue
         before = [fingerprint(a) for a in arrays]
         c = safe_call(fn, arrays[i], arrays[j])
         after = [fingerprint(a) for a in arrays]
@@ -144,6 +156,15 @@ def _check_metric(case, res):
                             f"{name}: evaluation #{k} on shared arrays gave {float(c.value)!r}, same values on fresh copies give {float(ref.value)!r}; "
                             f"x={pool0[i]} y={pool0[j]} (same object: {i == j})")
                 return res
+        # the value for given argument VALUES must not change along the history (first evaluation = reference)
+        key = (i, j)
+        if key not in first_value:
+            first_value[key] = (c.value, k)
+        elif not _same(first_value[key][0], c.value):
+            res.violate("history", "C07/value-depends-on-history/distance",
+                        f"{name}: pool[{i}],pool[{j}] evaluated to {float(first_value[key][0])!r} at op #{first_value[key][1]} and to {float(c.value)!r} at op #{k} "
+                        f"of the same process history (arrays unchanged); x={pool0[i]} y={pool0[j]}")
+            return res
     if has_zero and len(case["ops"]) >= 2:
         res.see("history_on_exact_zero")
     res.nontrivial = len(case["ops"]) >= 2 and (has_zero or not T[name][3])
@@ -224,6 +245,16 @@ def _check_model(case, res, tmp):
         elif op == "eval":
             i, j = k % len(arrs["X"]), (3 * k + 1) % len(arrs["X"])
             c = safe_call(DISTANCES[name], arrs["X"][i], arrs["X"][j])
+        elif op == "noise":
+            # unrelated work in the same process: the metric on longer / shorter vectors, and a model of another dimension
+            d = arrs["X"].shape[1]
+            for m in (d + 5, max(1, d - 1), d + 20):
+                v = np.abs(np.linspace(0.1, 2.0, m)) / (m if T[name][1] == "Q" else 1.0)
+                safe_call(DISTANCES[name], v.copy(), v[::-1].copy())
+            wide = np.hstack([orig["X"], orig["X"][:, :1] * 0.5 + 0.1, orig["X"][:, :1] * 0.25 + 0.2])
+            other = build_model("supervised", name)
+            safe_call(other.fit, wide, orig["Y"].copy())
+            res.see("other_length_evaluations")
         after = fps()
         res.see("fingerprints_compared", len(arrs))
         if before != after:
